@@ -5,7 +5,10 @@
 //!   prange <c> <k>                          in01 | out01 <bits>
 //!   mono   <c1> <c2> <k>                    lt|eq|gt : order of the two outputs
 //!   monole <c1> <c2> <k>                    le | inv  (c1 <= c2: outputs never in the wrong order)
-//!   ci     <c> <k> <scaled> <n> <conf>      degenerate | in01 ordered | diagnostic (see `verdict`)
+//!   ci     <c> <k> <scaled> <n> <conf>      degenerate | in01 ordered | diagnostic (see `verdict`), then the
+//!                                           order-independence oracle: the same request answered a second time on a
+//!                                           FRESH thread (no thread-local history) must give the same bits:
+//!                                           fresh-same | fresh-diff:<here lo,hi>/<fresh lo,hi>
 //!   cib    <c> <k> <scaled> <n> <conf>      bits of (low, high) | err <Variant>
 //!   ref    point|ci|varn|q|pnc … <published bits…>    close | far …   (|computed − published| < f64::EPSILON)
 //!   pin    point|ci …            <bits…>    the bits on the current tree (compared with the bits in the line)
@@ -21,6 +24,11 @@
 //!                                           (KmerMinHash::downsample_scaled) BEFORE the call must give bit-identical
 //!                                           pre-ratios-same pre-ani-same pre-ci-same (…-diff:<bits>/<bits> otherwise)
 //!   mid    q|expn|varn|expsq|pnc|f12 …      private intermediates — see `real_src` below
+//!
+//! Every case runs on a thread of its own (`Worker`): whatever the crate keeps per thread starts empty at a
+//! `case` line, so a case is a complete, replayable history.  "Fresh" answers (`ci`, and the reference
+//! interval the CI fields of `gather`/`gatherv` are compared with) are computed on a thread spawned for
+//! that single call.
 //!
 //! `point`, `ci`, `cib`, `ref point|ci`, `pin`, `gather` run the real crate (`sourmash::ani_utils`,
 //! `sourmash::index::calculate_gather_stats`).  The functions r1_to_q, exp_n_mutated, var_n_mutated,
@@ -151,8 +159,32 @@ fn err_name(e: &sourmash::Error) -> String {
 
 const TOL: f64 = 1e-12;
 
+/// `f` on a thread that has never called into the crate (thread-locals in their initial state)
+fn fresh<T: Send>(f: impl FnOnce() -> T + Send) -> T {
+    std::thread::scope(|s| match s.spawn(f).join() {
+        Ok(v) => v,
+        Err(p) => std::panic::resume_unwind(p),
+    })
+}
+fn ci_bits(r: &Result<(f64, f64), sourmash::Error>) -> String {
+    match r {
+        Ok((lo, hi)) => format!("{},{}", fb(*lo), fb(*hi)),
+        Err(e) => err_name(e).replace(' ', "-"),
+    }
+}
+
+/// the property's verdict on the interval computed HERE (on the case's thread, after whatever the case
+/// asked before), followed by the comparison with the answer of a fresh thread
 fn verdict(c: f64, k: f64, scaled: u64, n: u64, conf: Option<f64>) -> String {
-    match ani_ci_from_containment(c, k, scaled, n, conf) {
+    let here = ani_ci_from_containment(c, k, scaled, n, conf);
+    let there = fresh(|| ani_ci_from_containment(c, k, scaled, n, conf));
+    let (a, b) = (ci_bits(&here), ci_bits(&there));
+    let tok = if a == b { "fresh-same".to_string() } else { format!("fresh-diff:{}/{}", a, b) };
+    format!("{} {}", verdict_of(here, c, k), tok)
+}
+
+fn verdict_of(r: Result<(f64, f64), sourmash::Error>, c: f64, k: f64) -> String {
+    match r {
         Err(e) => err_name(&e),
         Ok((lo, hi)) => {
             let p = ani_from_containment(c, k);
@@ -323,7 +355,8 @@ fn step(_: &mut (), ws: &[&str]) -> String {
                         if !calc_ci {
                             return if lo.is_none() && hi.is_none() { "none".into() } else { "unexpected".into() };
                         }
-                        match ani_ci_from_containment(c, kf, scaled, nu, conf) {
+                        // the reference interval is history-free: computed on a fresh thread
+                        match fresh(|| ani_ci_from_containment(c, kf, scaled, nu, conf)) {
                             Ok((l, h)) if lo.map(f64::to_bits) == Some(l.to_bits()) && hi.map(f64::to_bits) == Some(h.to_bits()) => {
                                 "same".into()
                             }
@@ -333,8 +366,8 @@ fn step(_: &mut (), ws: &[&str]) -> String {
                     if ws[0] == "gatherv" {
                         // the property, on the values gather itself reports
                         let (q, m) = (r.query_containment_ani(), r.match_containment_ani());
-                        let ani_ok = q.to_bits() == ani_from_containment(r.f_orig_query(), kf).to_bits()
-                            && m.to_bits() == ani_from_containment(r.f_match_orig(), kf).to_bits();
+                        let (wq, wm) = (ani_from_containment(r.f_orig_query(), kf), ani_from_containment(r.f_match_orig(), kf));
+                        let ani_ok = q.to_bits() == wq.to_bits() && m.to_bits() == wm.to_bits();
                         let avg_ok = r.average_containment_ani() == (q + m) / 2.0;
                         let mx = r.max_containment_ani();
                         let max_ok = mx >= q && mx >= m && (mx == q || mx == m);
@@ -381,9 +414,15 @@ fn step(_: &mut (), ws: &[&str]) -> String {
                                 )
                             }
                         };
+                        let ani_tok = if ani_ok {
+                            "ani-ok".to_string()
+                        } else {
+                            // reported / value of ani_from_containment at the reported containment
+                            format!("ani-BAD:{}/{},{}/{}", fb(q), fb(wq), fb(m), fb(wm))
+                        };
                         return format!(
                             "{} {} {} {} {}",
-                            t(ani_ok, "ani"),
+                            ani_tok,
                             t(avg_ok, "avg"),
                             t(max_ok, "max"),
                             t(ci_ok, "ci"),
@@ -597,6 +636,59 @@ fn gen(a: &Args) {
             }
         }
     }
+    // ---- stream 3b: order independence.  One case = one thread's history of interval requests whose
+    // confidence levels differ but lie close together (inside one whole percent, one tenth of a percent, …),
+    // interleaved with a second group; every answer must be the one a fresh thread gives (`fresh-same`).
+    // The same through calculate_gather_stats (gather/gatherv with calc_ani_ci: the reference interval is
+    // computed on a fresh thread).
+    let groups: [&[Option<f64>]; 8] = [
+        &[None, Some(0.95), Some(0.9545), Some(0.959), Some(0.955), Some(0.9501)],
+        &[Some(0.99), Some(0.995), Some(0.999), Some(0.9973), Some(0.9901)],
+        &[Some(0.9), Some(0.905), Some(0.909), Some(0.9001)],
+        &[Some(0.97), Some(0.975), Some(0.979)],
+        &[Some(0.8), Some(0.805), Some(0.8099)],
+        &[Some(0.98), Some(0.985), Some(0.989)],
+        &[Some(0.6827), Some(0.68), Some(0.689)],
+        &[Some(0.5), Some(0.501), Some(0.509)],
+    ];
+    let n = if thorough { 3_000 } else { 240 };
+    for i in 0..n {
+        o.case("ci-order");
+        let k = *r.pick(&KS);
+        let scaled = *r.pick(&[1u64, 10, 100, 1000, 1000, 10_000]);
+        let nk = *r.pick(&[100u64, 1000, 10_000, 100_000]) * scaled;
+        let c0 = r.range(20, 380) as f64 / 400.0;
+        // the first two groups (the default level and 0.99) most often; otherwise any percent bucket
+        let pick_group = |r: &mut Rng| -> Vec<Option<f64>> {
+            match r.below(10) {
+                0..=2 => groups[0].to_vec(),
+                3..=4 => groups[1].to_vec(),
+                5..=7 => groups[r.range(2, 7) as usize].to_vec(),
+                _ => {
+                    let pct = r.range(50, 99);
+                    (0..4).map(|_| Some((pct * 1000 + r.below(1000)) as f64 / 100_000.0)).collect()
+                }
+            }
+        };
+        let (g1, g2) = (pick_group(&mut r), pick_group(&mut r));
+        // a small sketch pair for the calls through gather (ten shared hashes of fifteen / twenty)
+        let orig: Vec<u64> = (1..=15).collect();
+        let mat: Vec<u64> = (6..=25).collect();
+        let len = r.range(2, if thorough { 12 } else { 8 });
+        for j in 0..len {
+            let conf = if j % 2 == 0 || r.chance(1, 3) { *r.pick(&g1) } else { *r.pick(&g2) };
+            // the same request under different levels, or different requests: the level alone decides z
+            let c = if r.chance(2, 3) { c0 } else { r.range(20, 380) as f64 / 400.0 };
+            if i % 3 == 2 && r.chance(1, 2) {
+                let args = format!("{} {} {} 1 {} {} {} {} {} 0", k, scaled, conf_s(conf), show_nats(orig.clone()), show_nats(orig.clone()), show_nats(mat.clone()), r.range(1, 10), scaled);
+                o.op(&format!("gather {}", args));
+                o.op(&format!("gatherv {}", args));
+            } else {
+                o.op(&format!("ci {} {} {} {} {}", b(c), k, scaled, nk, conf_s(conf)));
+            }
+        }
+    }
+
     // random off-grid points
     let n = if thorough { 40_000 } else { 3_000 };
     for i in 0..n {
@@ -694,12 +786,21 @@ fn gen(a: &Args) {
         orig.dedup();
         mat.sort();
         mat.dedup();
-        // the remaining query is a subset of the original one (rank 0: the same)
-        let rank = if r.chance(1, 2) { 0 } else { r.range(1, 5) };
-        let remaining: Vec<u64> = if rank == 0 {
-            orig.clone()
-        } else {
-            orig.iter().cloned().filter(|_| r.chance(3, 4)).collect()
+        // the remaining query is an ARBITRARY subset of the original one, chosen independently of the match:
+        // 0 equal (rank 0) | 1 random subset | 2 everything shared with the match already claimed (disjoint from
+        // the match while the original still overlaps it) | 3 empty | 4 part of the shared hashes claimed |
+        // 5 only shared hashes left | 6 the shared hashes claimed and a random part of the rest too
+        let shared = |h: &u64| mat.binary_search(h).is_ok();
+        let rclass = *r.pick(&[0u64, 0, 0, 1, 1, 2, 2, 2, 3, 4, 4, 5, 6]);
+        let rank = if rclass == 0 { 0 } else { r.range(1, 5) };
+        let remaining: Vec<u64> = match rclass {
+            0 => orig.clone(),
+            1 => orig.iter().cloned().filter(|_| r.chance(3, 4)).collect(),
+            2 => orig.iter().cloned().filter(|h| !shared(h)).collect(),
+            3 => vec![],
+            4 => orig.iter().cloned().filter(|h| !shared(h) || r.chance(1, 2)).collect(),
+            5 => orig.iter().cloned().filter(|h| shared(h)).collect(),
+            _ => orig.iter().cloned().filter(|h| !shared(h) && r.chance(1, 2)).collect(),
         };
         // size of the match as the comparison sees it
         let ds = mat.iter().filter(|h| **h <= mq.min(mm)).count() as u64;
@@ -724,11 +825,51 @@ fn gen(a: &Args) {
     }
 }
 
+/// the thread a case runs on: request lines go in, one answer per line comes back
+struct Worker {
+    tx: Option<std::sync::mpsc::Sender<String>>,
+    rx: std::sync::mpsc::Receiver<String>,
+    handle: Option<std::thread::JoinHandle<()>>,
+}
+impl Worker {
+    fn new() -> Worker {
+        let (tx, wrx) = std::sync::mpsc::channel::<String>();
+        let (wtx, rx) = std::sync::mpsc::channel::<String>();
+        let handle = std::thread::Builder::new()
+            .stack_size(64 << 20)
+            .spawn(move || {
+                for line in wrx {
+                    let ws: Vec<&str> = line.split_whitespace().collect();
+                    let r = std::panic::catch_unwind(std::panic::AssertUnwindSafe(|| step(&mut (), &ws)));
+                    if wtx.send(r.unwrap_or_else(|_| "PANIC".into())).is_err() {
+                        break;
+                    }
+                }
+            })
+            .unwrap();
+        Worker { tx: Some(tx), rx, handle: Some(handle) }
+    }
+    fn ask(&mut self, ws: &[&str]) -> String {
+        if self.tx.as_ref().unwrap().send(ws.join(" ")).is_err() {
+            return "PANIC".into();
+        }
+        self.rx.recv().unwrap_or_else(|_| "PANIC".into())
+    }
+}
+impl Drop for Worker {
+    fn drop(&mut self) {
+        self.tx.take();
+        if let Some(h) = self.handle.take() {
+            let _ = h.join();
+        }
+    }
+}
+
 fn main() {
     let a = args();
     match a.mode.as_str() {
         "gen" => gen(&a),
-        "exec" => exec_loop(|| (), step),
+        "exec" => exec_loop(Worker::new, |w, ws| w.ask(ws)),
         _ => panic!("mode"),
     }
 }
